@@ -73,7 +73,10 @@ KERNELS = [
     # ---- dataset.cpp: range checks and column counts ------------------------------------------------
     K("src_check_feature_bad", DTC, r"void dataset_t::check\(tensor_size_t feature\) const\s*\{\s*critical\((.*?),\s*\"",
       [(r"features\(\)", "features")], [("feature", "Z"), ("features", "Z")], G, _P),
-    K("src_check_samples_bad", DTC, r"void dataset_t::check\(indices_cmap_t samples\) const\s*\{\s*critical\((.*?),\s*\"",
+    # repo 2030fc5: an empty list of samples is accepted before min()/max() are taken
+    K("src_check_samples_empty", DTC, r"void dataset_t::check\(indices_cmap_t samples\) const\s*\{[^{}]*?if \((.*?)\)\s*\{\s*return;\s*\}",
+      [(r"samples\.size\(\)", "size")], [("size", "Z")], G, _P),
+    K("src_check_samples_bad", DTC, r"void dataset_t::check\(indices_cmap_t samples\) const\s*\{[^{}]*?if \([^()]*(?:\([^()]*\)[^()]*)*\)\s*\{\s*return;\s*\}\s*critical\((.*?),\s*\"",
       [(r"samples\.min\(\)", "smin"), (r"samples\.max\(\)", "smax"), (r"m_datasource\.samples\(\)", "count")],
       [("smin", "Z"), ("smax", "Z"), ("count", "Z")], G, _P),
     K("src_total_cols_sclass", DTC, r"case feature_type::sclass:\s*total_columns\s*\+=\s*(.*?);", _CLS, [("classes", "Z")], G, _P),
